@@ -11,6 +11,8 @@ import (
 	"crypto/sha256"
 	"fmt"
 	"strings"
+	"sync/atomic"
+	"time"
 
 	"verifharness/hx"
 )
@@ -38,43 +40,98 @@ func newWorld(kind string, first []string) world {
 	return nil
 }
 
+// recorder buffers what a sequential case produces, so that a case that hangs can be abandoned without its
+// goroutine ever writing into a later case.
+type recorder struct {
+	lines  [][2]string
+	fails  []failure
+	counts []string
+	cur    atomic.Int32 // index of the op in progress
+}
+
+func (c *recorder) Fail(oracle, detail string, sig map[string]string) {
+	c.fails = append(c.fails, failure{oracle, detail, sig})
+}
+
+var seqTimeout = 40 * time.Second
+
 // runCase interprets the op lines of one case (one construct, or stress scenarios).
 func runCase(r *hx.Run, sub uint64, ops []string) {
 	r.Case(sub)
-	var w world
-	changes, prev := 0, ""
-	for _, op := range ops {
-		f := strings.Fields(op)
-		if len(f) == 0 || f[0] == "q" {
-			continue // `q` lines are produced by the stress scenarios themselves
-		}
-		if f[0] == "stress" {
+	first := strings.Fields(ops[0])
+	if first[0] == "stress" || first[0] == "q" {
+		for _, op := range ops {
+			f := strings.Fields(op)
+			if len(f) == 0 || f[0] != "stress" {
+				continue // `q` lines are produced by the stress scenarios themselves
+			}
 			if p := hx.Safely(func() { runStress(r, f) }); p != "" {
 				r.Fail("no-panic", "panic in "+op+": "+p, map[string]string{"construct": f[1], "trigger": "panic", "mode": "stress"})
 			}
 			r.Count("stress:" + f[1])
 			r.Nontrivial(op)
-
-			continue
 		}
-		if w == nil {
-			if w = newWorld(f[0], f); w == nil {
-				r.Line(op, "bad-op")
+		r.Sample(r.CaseLines())
 
+		return
+	}
+	construct := first[0]
+	if hung["seq:"+construct] {
+		r.Count("sequential-skipped-after-hang:" + construct)
+
+		return
+	}
+	rec := &recorder{}
+	done := make(chan struct{})
+	go func() {
+		defer close(done)
+		var w world
+		for i, op := range ops {
+			rec.cur.Store(int32(i))
+			f := strings.Fields(op)
+			if len(f) < 2 {
 				continue
 			}
+			if w == nil {
+				if w = newWorld(f[0], f); w == nil {
+					rec.lines = append(rec.lines, [2]string{op, "bad-op"})
+
+					continue
+				}
+			}
+			ans := ""
+			if p := hx.Safely(func() { ans = w.exec(rec, f[1:]) }); p != "" {
+				ans = "panic"
+				rec.Fail("no-panic", "panic in "+op+": "+p, map[string]string{"construct": f[0], "trigger": f[1], "mode": "sequential"})
+			}
+			rec.lines = append(rec.lines, [2]string{op, ans})
+			rec.counts = append(rec.counts, "op:"+f[0]+" "+f[1])
 		}
-		ans := ""
-		if p := hx.Safely(func() { ans = w.exec(r, f[1:]) }); p != "" {
-			ans = "panic"
-			r.Fail("no-panic", "panic in "+op+": "+p, map[string]string{"construct": f[0], "trigger": f[1], "mode": "sequential"})
-		}
-		r.Line(op, ans)
-		r.Count("op:" + f[0] + " " + f[1])
-		if ans != prev {
+	}()
+	select {
+	case <-done:
+	case <-time.After(seqTimeout):
+		// the call never returned (endless loop or self-deadlock): the goroutine is abandoned, its buffer is dropped
+		hung["seq:"+construct] = true
+		i := int(rec.cur.Load())
+		r.Fail("progress-watchdog", fmt.Sprintf("sequential call %q did not return within %s; history: %s", ops[i], seqTimeout, strings.Join(ops[:i+1], "; ")),
+			map[string]string{"construct": construct, "trigger": strings.Fields(ops[i])[1], "mode": "sequential-hang"})
+
+		return
+	}
+	changes, prev := 0, ""
+	for _, l := range rec.lines {
+		r.Line(l[0], l[1])
+		if l[1] != prev {
 			changes++
 		}
-		prev = ans
+		prev = l[1]
+	}
+	for _, c := range rec.counts {
+		r.Count(c)
+	}
+	for _, f := range rec.fails {
+		r.Fail(f.oracle, f.detail, f.sig)
 	}
 	if changes >= 4 {
 		h := sha256.Sum256([]byte(strings.Join(ops, "\n")))
